@@ -8,6 +8,10 @@ def P(quick_runs, thorough_runs, level="exploration", quick_budget=40, thorough_
     return d
 
 PROPS = {
+    "C01": P(50000, 1200000, assumptions=["units that create other units finish before streams are joined (a creation racing with the join of the only stream serving the target pool is the program's error)"]),
+    "C03": P(60000, 1500000, assumptions=["one joiner per target (API contract); a tasklet joiner only joins targets served by other streams; unbounded yield loops are kept where the strict pool priority of the predefined schedulers cannot starve the awaited unit"]),
+    "C05": P(60000, 1500000, expect_reach=["c05.signal_with_certain_waiter", "c05.broadcast_with_certain_waiters"],
+             assumptions=["waiters and in-mutex signallers follow the monitor discipline; no oracle encodes timing"]),
     "C04": P(60000, 1500000, expect_reach=["c04.trylock_fail", "c04.contended_invocations"],
              assumptions=["generated programs nest lock/unlock properly; tasklets and ULTs never spin or block their stream on a holder that may sit in that stream's pool"]),
 }
